@@ -1,6 +1,9 @@
 package rules
 
 import (
+	"go/ast"
+	"go/types"
+
 	"golang.org/x/tools/go/ssa"
 
 	"refcheck/internal/eng"
@@ -81,4 +84,115 @@ func (x *Ctx) writesThrough(in ssa.Instruction, isObj func(ssa.Value) bool) bool
 		}
 	}
 	return false
+}
+
+// addrRootDeep is addrRoot that also reports whether the chain from the root to
+// the address passes through a reference (a pointer, slice or map loaded from a
+// field): memory behind such a reference is shared by a shallow copy of the root.
+func addrRootDeep(v ssa.Value) (root ssa.Value, throughRef bool) {
+	for i := 0; i < 12; i++ {
+		switch y := v.(type) {
+		case *ssa.FieldAddr:
+			v = y.X
+		case *ssa.IndexAddr:
+			if _, isSlice := y.X.Type().Underlying().(*types.Slice); isSlice {
+				throughRef = true
+			}
+			v = y.X
+		case *ssa.Field:
+			v = y.X
+		case *ssa.UnOp:
+			if fa, ok := y.X.(*ssa.FieldAddr); ok {
+				throughRef = true
+				v = fa.X
+				continue
+			}
+			return v, throughRef
+		default:
+			return v, throughRef
+		}
+	}
+	return v, throughRef
+}
+
+// metadataKeys returns the constant keys of types.metadataFields (keys that
+// Payload.Set stores in dedicated struct fields rather than in the shared map).
+func (x *Ctx) metadataKeys() map[string]bool {
+	out := map[string]bool{}
+	tp := x.P.ByRel["types"]
+	if tp == nil {
+		return out
+	}
+	for _, f := range tp.Syntax {
+		for _, d := range f.Decls {
+			gd, ok := d.(*ast.GenDecl)
+			if !ok {
+				continue
+			}
+			for _, sp := range gd.Specs {
+				vs, ok := sp.(*ast.ValueSpec)
+				if !ok {
+					continue
+				}
+				for i, n := range vs.Names {
+					if n.Name != "metadataFields" || i >= len(vs.Values) {
+						continue
+					}
+					if lit, ok := vs.Values[i].(*ast.CompositeLit); ok {
+						for _, e := range lit.Elts {
+							if kv, ok := e.(*ast.KeyValueExpr); ok {
+								if val, ok := constLabel(tp.TypesInfo, kv.Key); ok {
+									out[val] = true
+								}
+							}
+						}
+					}
+				}
+			}
+		}
+	}
+	return out
+}
+
+// writesShared reports whether method f, called on (a field of) a struct that
+// is a shallow copy of another, can write memory the copy shares with the
+// original: a map update on a map field, a store through a pointer or slice
+// field, or a call of such a method / of any mutator behind a pointer field.
+func (x *Ctx) writesShared(f *ssa.Function, depth int) bool {
+	if f == nil || f.Blocks == nil || f.Signature.Recv() == nil || len(f.Params) == 0 {
+		return false
+	}
+	recv := f.Params[0]
+	found := false
+	eng.Instrs(f, func(in ssa.Instruction) {
+		if found {
+			return
+		}
+		switch y := in.(type) {
+		case *ssa.Store:
+			if r, ref := addrRootDeep(y.Addr); r == ssa.Value(recv) && ref {
+				found = true
+			}
+		case *ssa.MapUpdate:
+			if r, _ := addrRootDeep(y.Map); r == ssa.Value(recv) {
+				found = true
+			}
+		case *ssa.Call:
+			if b, ok := y.Call.Value.(*ssa.Builtin); ok && (b.Name() == "delete" || b.Name() == "clear") && len(y.Call.Args) > 0 {
+				if r, _ := addrRootDeep(y.Call.Args[0]); r == ssa.Value(recv) {
+					found = true
+				}
+			}
+			if cal := y.Call.StaticCallee(); cal != nil && cal.Signature.Recv() != nil && len(y.Call.Args) > 0 && depth > 0 {
+				r, ref := addrRootDeep(y.Call.Args[0])
+				if r != ssa.Value(recv) {
+					return
+				}
+				if ref && x.isMutator(cal, 1) || !ref && x.writesShared(cal, depth-1) {
+					found = true
+				}
+			}
+		}
+	})
+	return found
 }
